@@ -469,6 +469,29 @@ class C14(runner.Prop):
         alive = [r() for r in refs if r() is not None]
         if alive:
             ctx.fail('spec_keeps_leaves_alive', f'{len(alive)} of {len(refs)} leaves still alive: {alive[:3]!r}')
+
+        # the same after the treespec was *used*: rebuilding trees from it (unflatten, tree_map, traverse) and dropping
+        # them again leaves nothing behind that keeps the leaves alive
+        def make_and_use():
+            tree = gen.build(case['t'])
+            with gen.ModeCtx(cfg):
+                leaves, sp = optree.tree_flatten(tree, **kw)
+                try:
+                    rebuilt = sp.unflatten(leaves)
+                    mapped = optree.tree_map(lambda x: x, tree, **kw)
+                    walked = sp.traverse(leaves)
+                    up = sp.flatten_up_to(rebuilt)
+                    del rebuilt, mapped, walked, up
+                except Exception:  # noqa: BLE001   (e.g. a partial whose args tuple the predicate made a leaf)
+                    pass
+            return sp, [weakref.ref(x) for x in leaves if type(x) is U.Leaf]
+
+        spec2, refs2 = make_and_use()
+        gc.collect()
+        alive = [r() for r in refs2 if r() is not None]
+        if alive:
+            ctx.fail('leaves_alive_after_use', f'{len(alive)} of {len(refs2)} leaves still alive after unflatten / tree_map / traverse: {alive[:3]!r}')
+        del spec2
         if refs:
             ctx.label('weakref_leaves')
         repr(spec)
